@@ -19,6 +19,17 @@ CLAIMED = {
             "Hash256 is an oracle table (hashlib); TLC, the TLA+ modules and the projection code are trusted; "
             "inputs beyond the generated families are not covered.",
             "DESIGN.md section 5 C10"),
+    "C19": ("TLA+ Wire spec (byte-at-a-time parser automaton, push-header and varint rules): TLC exhaustive on "
+            "small tapes/all lengths + TLC trace validation of recorded serialize/parse/varint calls",
+            "Wire.tla specifies the script parser as an explicit step automaton, the push-header thresholds and the "
+            "varint codec. TLC explores the automaton on every tape of <=4 bytes over a 13-byte alphabet (every "
+            "prefix is a state), all element lengths 0..521 incl. every strict prefix of the serialisation, and "
+            "varint boundaries; the same transition function then validates recorded calls of the real "
+            "Script.serialize/parse and encode_varint/read_varint (all lengths 0..521, all opcodes, all prefixes, "
+            "corrupted heads, random multi-element scripts).",
+            "Element contents are arbitrary bytes and do not influence control flow; zero-length elements are outside "
+            "the statement; TLC, Wire.tla and the projection code are trusted.",
+            "DESIGN.md section 5 C19"),
 }
 
 ALL = ["C%02d" % i for i in range(1, 21)]
